@@ -1,6 +1,5 @@
 package main
 
-func extractRateLimiter() {}
 func extractPause()       {}
 func extractStats()       {}
 func extractQueue()       {}
